@@ -94,10 +94,10 @@ struct CliCase {
 
 #[derive(Clone, Copy, PartialEq)]
 enum Kind {
-    Oligo { k: usize, norm: bool, header: bool },
+    Oligo { k: usize, norm: bool, header: bool, delim: &'static str },
     Cgr,
     Kcgr { k: usize, norm: bool },
-    Cov { k: usize, norm: bool },
+    Cov { k: usize, norm: bool, delim: &'static str },
     Ctr { k: usize },
     Min { m: usize, w: usize, s2m: bool },
 }
@@ -154,8 +154,8 @@ fn judge_cli(ctx: &Ctx, st: &mut Stats, d: &Degenerate, layout: &str, c: &CliCas
     // exit 0: judge the outputs
     let n = d.recs.len();
     match c.kind {
-        Kind::Oligo { k, norm, header } => {
-            let cfg = OligoCfg { k, threads: 1, memory: 0, header, delim: " ".into(), norm, writer: Writer::Public };
+        Kind::Oligo { k, norm, header, delim } => {
+            let cfg = OligoCfg { k, threads: 1, memory: 0, header, delim: delim.into(), norm, writer: Writer::Public };
             let data = std::fs::read(out_file).unwrap_or_default();
             if let Err((sig, msg)) = check_rows(&data, &d.recs, &cfg) {
                 st.violate(&format!("cli.{}:{}", sig, c.name), format!("[{}] {}", d.name, msg), case());
@@ -164,7 +164,7 @@ fn judge_cli(ctx: &Ctx, st: &mut Stats, d: &Degenerate, layout: &str, c: &CliCas
             let ls = lines(&data);
             let rows = if header { &ls[1.min(ls.len())..] } else { &ls[..] };
             for (row, r) in rows.iter().zip(d.recs.iter()) {
-                if model::windows(&r.seq, k).is_empty() && !all_zero_row(row, b" ") {
+                if model::windows(&r.seq, k).is_empty() && !all_zero_row(row, delim.as_bytes()) {
                     st.violate(&format!("cli.nonzero_row:{}", c.name), format!("[{}] record {} has no valid window but its row is not all-zero", d.name, r.id), case());
                     return;
                 }
@@ -205,15 +205,15 @@ fn judge_cli(ctx: &Ctx, st: &mut Stats, d: &Degenerate, layout: &str, c: &CliCas
                 st.violate(&format!("cli.{}:{}", sig, c.name), format!("[{}] {}", d.name, msg), case());
             }
         }
-        Kind::Cov { k, norm } => {
+        Kind::Cov { k, norm, delim } => {
             let data = std::fs::read(format!("{}/kmers.vectors", out_dir)).unwrap_or_default();
-            let cfg = CovCfg { k, bin_size: 5, bin_count: 6, norm, threads: 1, mem_gb: 6.0, delim: " ".into(), alt: false };
+            let cfg = CovCfg { k, bin_size: 5, bin_count: 6, norm, threads: 1, mem_gb: 6.0, delim: delim.into(), alt: false };
             if let Err((sig, msg)) = check_vectors(&data, &d.recs, &d.recs, &cfg) {
                 st.violate(&format!("cli.{}:{}", sig, c.name), format!("[{}] {}", d.name, msg), case());
                 return;
             }
             for (row, r) in lines(&data).iter().zip(d.recs.iter()) {
-                if model::windows(&r.seq, k).is_empty() && !all_zero_row(row, b" ") {
+                if model::windows(&r.seq, k).is_empty() && !all_zero_row(row, delim.as_bytes()) {
                     st.violate(&format!("cli.nonzero_row:{}", c.name), format!("[{}] record {} has no valid window but its row is not all-zero", d.name, r.id), case());
                     return;
                 }
@@ -263,19 +263,21 @@ pub fn cli(ctx: &Ctx) -> Stats {
         let t = if idx % 2 == 0 { "1" } else { "16" };
         let raw_fasta = ser::to_fasta(&d.recs, &SerOpts::plain());
         let mut stdin: Option<&[u8]> = None;
+        // "every accepted option combination": the delimiter preset varies with the case (one in three each)
+        let (preset, delim): (&str, &'static str) = [("spc", " "), ("csv", ","), ("tsv", "\t")][((idx / 13) % 3) as usize];
         let c = match which {
-            0 => CliCase { name: "oligo(mmap)", args: sv(&["comp", "oligo", "-i", &inp, "-o", &out_file, "-k", "3", "-t", t]), kind: Kind::Oligo { k: 3, norm: true, header: false } },
-            1 => CliCase { name: "oligo(mmap,-H)", args: sv(&["comp", "oligo", "-i", &inp, "-o", &out_file, "-k", "4", "-H", "-t", t]), kind: Kind::Oligo { k: 4, norm: true, header: true } },
-            2 => CliCase { name: "oligo(-c,batch)", args: sv(&["comp", "oligo", "-i", &inp, "-o", &out_file, "-k", "3", "-c", "-t", t]), kind: Kind::Oligo { k: 3, norm: false, header: false } },
+            0 => CliCase { name: "oligo(mmap)", args: sv(&["comp", "oligo", "-i", &inp, "-o", &out_file, "-k", "3", "-t", t, "-p", preset]), kind: Kind::Oligo { k: 3, norm: true, header: false, delim } },
+            1 => CliCase { name: "oligo(mmap,-H)", args: sv(&["comp", "oligo", "-i", &inp, "-o", &out_file, "-k", "4", "-H", "-t", t, "-p", preset]), kind: Kind::Oligo { k: 4, norm: true, header: true, delim } },
+            2 => CliCase { name: "oligo(-c,batch)", args: sv(&["comp", "oligo", "-i", &inp, "-o", &out_file, "-k", "3", "-c", "-t", t, "-p", preset]), kind: Kind::Oligo { k: 3, norm: false, header: false, delim } },
             3 => {
                 stdin = Some(&raw_fasta);
-                CliCase { name: "oligo(stdin,batch)", args: sv(&["comp", "oligo", "-i", "-", "-o", &out_file, "-k", "3", "-H", "-t", t]), kind: Kind::Oligo { k: 3, norm: true, header: true } }
+                CliCase { name: "oligo(stdin,batch)", args: sv(&["comp", "oligo", "-i", "-", "-o", &out_file, "-k", "3", "-H", "-t", t, "-p", preset]), kind: Kind::Oligo { k: 3, norm: true, header: true, delim } }
             }
             4 => CliCase { name: "cgr", args: sv(&["comp", "cgr", "-i", &inp, "-o", &out_file, "-v", "16", "-t", t]), kind: Kind::Cgr },
             5 => CliCase { name: "cgr(-k)", args: sv(&["comp", "cgr", "-i", &inp, "-o", &out_file, "-k", "3", "-v", "16", "-t", t]), kind: Kind::Kcgr { k: 3, norm: true } },
             6 => CliCase { name: "cgr(-k,-c)", args: sv(&["comp", "cgr", "-i", &inp, "-o", &out_file, "-k", "4", "-c", "-v", "16", "-t", t]), kind: Kind::Kcgr { k: 4, norm: false } },
-            7 => CliCase { name: "cov", args: sv(&["cov", "-i", &inp, "-o", &out_dir, "-k", "7", "-s", "5", "-c", "6", "-t", t]), kind: Kind::Cov { k: 7, norm: true } },
-            8 => CliCase { name: "cov(--counts)", args: sv(&["cov", "-i", &inp, "-o", &out_dir, "-k", "7", "-s", "5", "-c", "6", "--counts", "-t", t]), kind: Kind::Cov { k: 7, norm: false } },
+            7 => CliCase { name: "cov", args: sv(&["cov", "-i", &inp, "-o", &out_dir, "-k", "7", "-s", "5", "-c", "6", "-t", t, "-p", preset]), kind: Kind::Cov { k: 7, norm: true, delim } },
+            8 => CliCase { name: "cov(--counts)", args: sv(&["cov", "-i", &inp, "-o", &out_dir, "-k", "7", "-s", "5", "-c", "6", "--counts", "-t", t, "-p", preset]), kind: Kind::Cov { k: 7, norm: false, delim } },
             9 => CliCase { name: "ctr", args: sv(&["ctr", "-i", &inp, "-o", &out_dir, "-k", "10", "-t", t]), kind: Kind::Ctr { k: 10 } },
             12 => {
                 // the counting input is the same records in the *other* format family where that is legal
@@ -283,7 +285,7 @@ pub fn cli(ctx: &Ctx) -> Stats {
                 let main_is_fq = inp.contains(".fq");
                 let fastq_ok = !d.recs.is_empty() && d.recs.iter().all(|r| !r.seq.is_empty());
                 let alt = if !main_is_fq && fastq_ok { sc.write("alt.fastq", &ser::to_fastq(&d.recs, &SerOpts::plain())) } else { sc.write("alt.fna", &ser::to_fasta(&d.recs, &SerOpts::plain())) };
-                CliCase { name: "cov(--alt-input)", args: sv(&["cov", "-i", &inp, "-a", &alt, "-o", &out_dir, "-k", "7", "-s", "5", "-c", "6", "-t", t]), kind: Kind::Cov { k: 7, norm: true } }
+                CliCase { name: "cov(--alt-input)", args: sv(&["cov", "-i", &inp, "-a", &alt, "-o", &out_dir, "-k", "7", "-s", "5", "-c", "6", "-t", t, "-p", preset]), kind: Kind::Cov { k: 7, norm: true, delim } }
             }
             13 => {
                 // a window far longer than any record ("records shorter than w"): nothing can be computed, one
